@@ -13,7 +13,8 @@ RULE = ('family = one generated pipeline (source, 0-3 upstream stages, one prefe
         'switch; distinct = distinct (pipeline, schedule signature). Every 60th family '
         'is systematic: a tiny workload under the non-preemptive baseline schedule and '
         'ALL schedules with exactly one forced context switch.')
-PROBES = ['all_single_preemption_schedules_of_a_tiny_workload', 'items_refused',
+PROBES = ['another_pipeline_used_first_in_the_same_run', 'endless_input_first_k_compared',
+          'all_single_preemption_schedules_of_a_tiny_workload', 'items_refused',
           'later_task_finished_first']
 BUDGET = {
     'quick': {'families': 6000, 'wall_cap': 420, 'shrink_s': 15},
@@ -41,8 +42,32 @@ def gen(rng, tier, index):
     if st.get('backend') is False and st['op'] == 'prefetch':
         # backend=False evaluates in the consumer thread; still a valid config
         pass
+    take = None
+    pi = pargen.par_index(desc)
+    if rng.random() < 0.08 and desc['source']['n'] > 0 and pi == len(desc['stages']) - 1 \
+            and (st['op'] == 'parmap' or not pargen.is_pool(st)) and not st.get('catch'):
+        # an endless (cycled) input: the first k examples must agree
+        cyc = {'source': desc['source'],
+               'stages': desc['stages'][:pi] + [{'op': 'cycle'}, desc['stages'][pi]]}
+        a2 = pargen.abs_eval(cyc)
+        if a2 is not None:
+            desc, a = cyc, a2
+            take = rng.randrange(1, 3 * desc['source']['n'] + 3)
     items = a.items is not False and rng.random() < 0.25 or \
         (desc['source']['kind'] == 'dict' and rng.random() < 0.15)
+    prelude = None
+    if rng.random() < 0.25 and take is None:
+        # a different pipeline with the same parallel stage configuration is
+        # iterated first in the same run
+        for _ in range(20):
+            pd, pa = pargen.gen_desc(rng, max_n=6, min_n=1, max_up=2, max_down=0,
+                                     par_kw=dict(backends=(st.get('backend', 't')
+                                                           if st.get('backend', 't') is not False
+                                                           else 'False',), max_extra_b=2))
+            pst = parprops.par_stage(pd)
+            if pst['op'] == st['op'] and pargen.is_pool(pst) == pargen.is_pool(st):
+                prelude = pd
+                break
     cases = []
     for j in range(3):
         cases.append({
@@ -52,6 +77,11 @@ def gen(rng, tier, index):
             'think_max': rng.choice([0, 0, 3]),
             'trace': ['parallel_utils', 'core'] if rng.random() < 0.3
             else ['parallel_utils']})
+        if take is not None:
+            cases[-1]['take'] = take
+            cases[-1]['epochs'] = 1
+        if prelude is not None:
+            cases[-1]['prelude'] = prelude
     return cases
 
 
@@ -71,7 +101,11 @@ def run(case):
         out['probes']['all_single_preemption_schedules_of_a_tiny_workload'] = 1
     if not parprops.check_failure(case, res, out):
         parprops.check_transparent(case, res, out)
-        if not out['violations'] and not case.get('items'):
+        if case.get('take') is not None:
+            out['probes']['endless_input_first_k_compared'] = 1
+        if case.get('prelude'):
+            out['probes']['another_pipeline_used_first_in_the_same_run'] = 1
+        if not out['violations'] and not case.get('items') and case.get('take') is None:
             parprops.check_call_counts(case, res, res['ref_log'], out)
         _out_of_order_probe(res, out)
     return out
